@@ -47,7 +47,23 @@ func TestC12(t *testing.T) {
 	rec := kit.Get("C12")
 	rapid.Check(t, func(t *rapid.T) {
 		o := genOptions(t, rec)
-		c, _ := genOptionHistory(t, historyPlan{MinBatches: 1, MaxBatches: 10, Interleave: true, Knobs: gen.InDomain()})
+		plan := historyPlan{MinBatches: 1, MaxBatches: 10, Interleave: true, Knobs: gen.InDomain()}
+		long := pct(t, "long", 12)
+		if long {
+			// long histories in which sub-streams are opened late and at high
+			// payload positions: 12-30 batches, mostly metrics (up to 17
+			// payload types per batch), small dictionary limits so that tables
+			// keep moving to new schema ids
+			plan.MinBatches, plan.MaxBatches = 12, 30
+			if rapid.IntRange(0, 3).Draw(t, "longsig") > 0 {
+				plan.Signal = Metrics
+				plan.Interleave = false
+			}
+			if rapid.Bool().Draw(t, "longu8") {
+				o.Dict = "u8"
+			}
+		}
+		c, _ := genOptionHistory(t, plan)
 		c.Options = o
 		res, err := RunStream(c, RunConfig{KeepBAR: true})
 		if err != nil {
@@ -65,6 +81,16 @@ func TestC12(t *testing.T) {
 		if m.Retired() > 0 {
 			labels = append(labels, "schema_id_retired")
 		}
+		if long {
+			labels = append(labels, "long_history_12_to_30_batches")
+		}
+		maxPayloads := 0
+		for _, b := range res.Batches {
+			if b.BAR != nil && len(b.BAR.ArrowPayloads) > maxPayloads {
+				maxPayloads = len(b.BAR.ArrowPayloads)
+			}
+		}
+		labels = append(labels, "max_payloads_per_batch="+bucket(maxPayloads))
 		if res.Events.Total("reset") > 0 {
 			labels = append(labels, "dictionary_reset_under_unchanged_schema")
 		}
